@@ -42,8 +42,49 @@ pub fn line_case(start: &str) -> String {
     }
 }
 
+/// Several comment styles in ONE scanner state: the comment terminal must be the union of the single-style terminals.
+pub fn multi_case(lines: &[&str], blocks: &[(&str, &str)]) -> String {
+    let pat_of = |sc: &ScannerConfig, ti: u16| -> Result<String, String> {
+        match std::panic::catch_unwind(|| build_info(sc)) {
+            Err(_) => Err("panic".to_string()),
+            Ok(Err(m)) => Err(format!("rejected {}", m.chars().take(40).collect::<String>())),
+            Ok(Ok(maps)) => Ok(maps.iter().find(|(_, t)| *t == ti).map(|(p, _)| p.clone()).unwrap_or_default()),
+        }
+    };
+    let ls: Vec<String> = lines.iter().map(|s| rx::escape(s)).collect();
+    let bs: Vec<(String, String)> = blocks.iter().map(|(s, e)| (rx::escape(s), rx::escape(e))).collect();
+    let all = ScannerConfig::default().with_line_comments(ls.clone()).with_block_comments(bs.clone());
+    let mut parts = vec![];
+    for (ti, n) in [(3u16, ls.len()), (4u16, bs.len())] {
+        if n < 2 { continue; }
+        let multi = match pat_of(&all, ti) { Ok(p) => p, Err(e) => return format!("(cmulti {} ({}))", ti, e.split(' ').next().unwrap()) };
+        let mut singles = vec![];
+        for i in 0..n {
+            let sc = if ti == 3 { ScannerConfig::default().with_line_comments(vec![ls[i].clone()]) } else { ScannerConfig::default().with_block_comments(vec![bs[i].clone()]) };
+            match pat_of(&sc, ti) { Ok(p) => singles.push(p), Err(e) => return format!("(cmulti {} ({}))", ti, e.split(' ').next().unwrap()) }
+        }
+        let tr = |p: &str| rx::translate(p).unwrap_or_else(|_| "(unsupported)".to_string());
+        parts.push(format!("({} {} {} ({}))", ti, sx::s(&multi), tr(&multi), singles.iter().map(|p| tr(p)).collect::<Vec<_>>().join(" ")));
+    }
+    format!("(cmulti {} {})", sx::s(&format!("{:?} {:?}", lines, blocks)), parts.join(" "))
+}
+
 pub fn run(a: &Args) {
     let mut rng = Rng::new(a.seed ^ ((a.shard as u64) << 32) ^ 0xC15);
+    {
+        // several styles in one state
+        let lpool = ["//", "#", "--", ";", "%", "REM", "!"];
+        let bpool = [("/*", "*/"), ("(*", "*)"), ("{", "}"), ("#|", "|#"), ("{-", "-}"), ("<<", ">>"), ("[", "]")];
+        for _ in 0..(a.n / 8).max(2) {
+            let nl = rng.range(0, 3);
+            let nb = if nl < 2 { rng.range(2, 3) } else { rng.range(0, 3) };
+            let mut ls: Vec<&str> = vec![];
+            while ls.len() < nl { let x = lpool[rng.below(lpool.len())]; if !ls.contains(&x) { ls.push(x); } }
+            let mut bs: Vec<(&str, &str)> = vec![];
+            while bs.len() < nb { let x = bpool[rng.below(bpool.len())]; if !bs.contains(&x) { bs.push(x); } }
+            println!("{}", multi_case(&ls, &bs));
+        }
+    }
     let alphabet: Vec<char> = "*/-><)(#ab{}%!|~+".chars().collect();
     if a.shard == 0 {
         for (s, e) in [("/*", "*/"), ("(*", "*)"), ("<!--", "-->"), ("{", "}"), ("#|", "|#"), ("--[[", "]]"), ("{-", "-}"),
